@@ -51,13 +51,16 @@ type c15Chal struct {
 }
 
 type c15Op struct {
-	Kind   string `json:"kind"`            // present | clean | tamper
+	Kind   string `json:"kind"`            // present | clean | tamper | ask
 	Place  string `json:"place,omitempty"` // local | remote | mem
 	J      int    `json:"j"`               // index of the issuer in Config.Issuers
 	TestCA bool   `json:"testca,omitempty"`
 	C      int    `json:"c"`              // index into Chals
 	Name   string `json:"name,omitempty"` // tamper: identifier whose token file is hit
 	V      string `json:"v,omitempty"`    // tamper: delete | corrupt | empty
+	// ask: a request served by this process in the middle of the history (its answer is not
+	// recorded; what matters is that answering must not change what later requests get)
+	Q *c15Query `json:"q,omitempty"`
 }
 
 type c15Query struct {
@@ -95,20 +98,20 @@ type c15Env struct {
 	host     string
 }
 
-// loopbackHost picks a private 127/8 address for this process, so that concurrently running
+// c15LoopbackHost picks a private 127/8 address for this process, so that concurrently running
 // harnesses never compete for a port.
-func loopbackHost() string {
+func c15LoopbackHost() string {
 	p := os.Getpid()
 	return fmt.Sprintf("127.%d.%d.%d", 16+(p>>16)%200, (p>>8)&255, 1+p%250)
 }
 
-var portRand = rand.New(rand.NewSource(int64(os.Getpid())*7919 + 17))
+var c15PortRand = rand.New(rand.NewSource(int64(os.Getpid())*7919 + 17))
 
-// freePort picks a port on host that is free right now, below the kernel's ephemeral range
+// c15FreePort picks a port on host that is free right now, below the kernel's ephemeral range
 // (32768-60999 here), so that no other process's bind to port 0 can take it in the meantime.
-func freePort(host string) int {
+func c15FreePort(host string) int {
 	for try := 0; try < 200; try++ {
-		p := 20000 + portRand.Intn(12000)
+		p := 20000 + c15PortRand.Intn(12000)
 		ln, err := net.Listen("tcp", fmt.Sprintf("%s:%d", host, p))
 		if err != nil {
 			continue
@@ -119,9 +122,9 @@ func freePort(host string) int {
 	panic("no free port on " + host)
 }
 
-func newC15Env() (*c15Env, error) {
+func c15NewEnv() (*c15Env, error) {
 	log.SetOutput(io.Discard) // the solvers' servers log handshake errors of probes
-	e := &c15Env{backend: doubles.NewMemBackend(), host: loopbackHost()}
+	e := &c15Env{backend: doubles.NewMemBackend(), host: c15LoopbackHost()}
 	e.backend.Log.Hook = func(op *doubles.Op) error {
 		if e.loadFail && op.Kind == "Load" && strings.Contains(op.Key, "challenge_tokens") {
 			return errors.New("injected storage read failure")
@@ -132,9 +135,9 @@ func newC15Env() (*c15Env, error) {
 		st := doubles.NilCtxStorage{S: e.backend.Handle(inst)}
 		cfg, cache := doubles.NewConfig(st, certmagic.Config{DefaultServerName: "app.example", FallbackServerName: "app.example"}, certmagic.CacheOptions{})
 		i0 := certmagic.NewACMEIssuer(cfg, certmagic.ACMEIssuer{CA: "https://ca-one.test/dir", TestCA: "https://staging.ca-one.test/dir", Email: "x@example.com", Agreed: true, Logger: zap.NewNop(),
-			ListenHost: e.host, AltHTTPPort: freePort(e.host), AltTLSALPNPort: freePort(e.host)})
+			ListenHost: e.host, AltHTTPPort: c15FreePort(e.host), AltTLSALPNPort: c15FreePort(e.host)})
 		i1 := certmagic.NewACMEIssuer(cfg, certmagic.ACMEIssuer{CA: "https://ca-two.test/acme/directory", TestCA: "https://ca-two.test/acme/directory", Email: "x@example.com", Agreed: true, Logger: zap.NewNop(),
-			ListenHost: e.host, AltHTTPPort: freePort(e.host), AltTLSALPNPort: freePort(e.host)})
+			ListenHost: e.host, AltHTTPPort: c15FreePort(e.host), AltTLSALPNPort: c15FreePort(e.host)})
 		cfg.Issuers = []certmagic.Issuer{i0, i1}
 		return cfg, []*certmagic.ACMEIssuer{i0, i1}, cache, st
 	}
@@ -213,6 +216,12 @@ func (e *c15Env) apply(in *c15In, op c15Op) error {
 			return s.Present(ctx, ch.acme())
 		}
 		return s.CleanUp(ctx, ch.acme())
+	case "ask":
+		if op.Q == nil {
+			return fmt.Errorf("ask without a request")
+		}
+		e.query(in, *op.Q) // unparsable targets are simply not delivered
+		return nil
 	case "tamper":
 		key := certmagic.VerifChallengeTokensKey(e.issB[op.J].IssuerKey(), op.Name)
 		switch op.V {
@@ -258,7 +267,7 @@ func (e *c15Env) reset(in *c15In) error {
 	return nil
 }
 
-var oidACMEIdentifier = asn1.ObjectIdentifier{1, 3, 6, 1, 5, 5, 7, 1, 31}
+var c15OIDACMEIdentifier = asn1.ObjectIdentifier{1, 3, 6, 1, 5, 5, 7, 1, 31}
 
 type c15Obs struct {
 	Handled    bool     `json:"handled,omitempty"`
@@ -327,7 +336,7 @@ func (e *c15Env) query(in *c15In, q c15Query) (c15Obs, *url.URL, error) {
 			o.CertNames = leaf.DNSNames
 			var digest []byte
 			for _, ext := range leaf.Extensions {
-				if ext.Id.Equal(oidACMEIdentifier) {
+				if ext.Id.Equal(c15OIDACMEIdentifier) {
 					asn1.Unmarshal(ext.Value, &digest)
 					if digest == nil {
 						digest = []byte{}
@@ -354,7 +363,7 @@ func (e *c15Env) query(in *c15In, q c15Query) (c15Obs, *url.URL, error) {
 	return o, nil, fmt.Errorf("bad query kind %q", q.Kind)
 }
 
-func revAddr(c c15Chal) *string {
+func c15RevAddr(c c15Chal) *string {
 	r, err := dns.ReverseAddr(c.Ident)
 	if err != nil {
 		return nil
@@ -362,13 +371,13 @@ func revAddr(c c15Chal) *string {
 	return &r
 }
 
-func encChal(e *emit.Enc, c c15Chal) {
+func c15EncChal(e *emit.Enc, c c15Chal) {
 	t := map[string]int{"http-01": 0, "tls-alpn-01": 1, "dns-01": 2}
 	ty, ok := t[c.Type]
 	if !ok {
 		ty = 3
 	}
-	e.Int(ty).Str(c.Token).Str(c.KeyAuth).Bool(c.IDType == "ip").Str(c.Ident).OptStr(revAddr(c))
+	e.Int(ty).Str(c.Token).Str(c.KeyAuth).Bool(c.IDType == "ip").Str(c.Ident).OptStr(c15RevAddr(c))
 }
 
 // c15Tables: ToLower / IsSpace of the non-ASCII code points in strs, and the fold-equal pairs
@@ -480,12 +489,14 @@ func (r *c15Runner) runScenario(chals []c15Chal, ops []c15Op, queries []c15Query
 			switch op.Kind {
 			case "present":
 				enc.Int(0).Int(pl).Int(op.J)
-				encChal(enc, chals[op.C])
+				c15EncChal(enc, chals[op.C])
 			case "clean":
 				enc.Int(1).Int(pl).Int(op.J)
-				encChal(enc, chals[op.C])
+				c15EncChal(enc, chals[op.C])
 			case "tamper":
 				enc.Int(2).Int(op.J).Str(op.Name).Int(map[string]int{"delete": 0, "corrupt": 1, "empty": 2}[op.V])
+			case "ask":
+				enc.Int(3)
 			}
 		}
 		enc.Len(len(memObs))
@@ -508,7 +519,7 @@ func (r *c15Runner) runScenario(chals []c15Chal, ops []c15Op, queries []c15Query
 				enc.Int(0)
 				if obs.KeyAuthOf >= 0 {
 					enc.Bool(true)
-					encChal(enc, chals[obs.KeyAuthOf])
+					c15EncChal(enc, chals[obs.KeyAuthOf])
 				} else {
 					enc.Bool(false)
 				}
@@ -558,9 +569,9 @@ func c15NewChal(r *rand.Rand, typ, ident string) c15Chal {
 	return c15Chal{Type: typ, Token: t, KeyAuth: t + "." + c15Token(r), IDType: idt, Ident: ident}
 }
 
-type variant struct{ name, val string }
+type c15Variant struct{ name, val string }
 
-func swapCase(s string) string {
+func c15SwapCase(s string) string {
 	return strings.Map(func(r rune) rune {
 		if unicode.IsUpper(r) {
 			return unicode.ToLower(r)
@@ -569,38 +580,41 @@ func swapCase(s string) string {
 	}, s)
 }
 
-func hostVariants(id string) []variant {
-	v := []variant{{"exact", id}, {"swapcase", swapCase(id)}, {"port80", net.JoinHostPort(id, "80")}, {"port8080", net.JoinHostPort(id, "8080")},
+func c15HostVariants(id string) []c15Variant {
+	v := []c15Variant{{"exact", id}, {"swapcase", c15SwapCase(id)}, {"port80", net.JoinHostPort(id, "80")}, {"port8080", net.JoinHostPort(id, "8080")},
 		{"trailing-dot", id + "."}, {"prefixed", "x" + id}, {"suffixed", id + "x"}, {"hash", id + "#"}, {"empty-port", id + ":"}, {"only-port", ":80"},
 		{"empty", ""}, {"lead-space", " " + id}, {"trail-space", id + " "}, {"other", "other.example"}, {"two-ports", id + ":80:80"},
 		{"bracketed", "[" + id + "]"}, {"bracketed-port", "[" + id + "]:80"}, {"raw-port", id + ":80"}, {"open-bracket", "[" + id},
 		{"close-bracket", id + "]"}, {"bracket-junk", "[" + id + "]x"}, {"bracket-empty-port", "[" + id + "]:"}, {"double-bracket", "[[" + id + "]]"},
-		{"zone", "[" + id + "%25eth0]"}, {"bracket-swapcase", "[" + swapCase(id) + "]"}}
+		{"zone", "[" + id + "%25eth0]"}, {"bracket-swapcase", "[" + c15SwapCase(id) + "]"},
+		// spellings that KeyBuilder.Safe maps to the identifier's storage key
+		{"dollar-mid", id[:1] + "$" + id[1:]}, {"bang", id + "!"}, {"parens", "(" + id + ")"}, {"star-mid", id[:1] + "*" + id[1:]}}
 	if strings.ContainsAny(id, "kK") {
-		v = append(v, variant{"kelvin", strings.NewReplacer("k", "K", "K", "K").Replace(id)})
+		v = append(v, c15Variant{"kelvin", strings.NewReplacer("k", "K", "K", "K").Replace(id)})
 	}
 	if strings.ContainsAny(id, "sS") {
-		v = append(v, variant{"long-s", strings.NewReplacer("s", "ſ", "S", "ſ").Replace(id)})
+		v = append(v, c15Variant{"long-s", strings.NewReplacer("s", "ſ", "S", "ſ").Replace(id)})
 	}
 	return v
 }
 
-func pathVariants(tok, otherTok string) []variant {
+func c15PathVariants(tok, otherTok string) []c15Variant {
 	b := c15Base
-	return []variant{{"exact", b + "/" + tok}, {"trailing-slash", b + "/" + tok + "/"}, {"longer", b + "/" + tok + "x"}, {"shorter", b + "/" + tok[:len(tok)-1]},
+	return []c15Variant{{"exact", b + "/" + tok}, {"trailing-slash", b + "/" + tok + "/"}, {"longer", b + "/" + tok + "x"}, {"shorter", b + "/" + tok[:len(tok)-1]},
 		{"base", b}, {"base-slash", b + "/"}, {"double-slash-lead", "/" + b + "/" + tok}, {"double-slash-mid", b + "//" + tok}, {"upper-base", strings.ToUpper(b) + "/" + tok},
 		{"encoded-dot", "/%2Ewell-known/acme-challenge/" + tok}, {"encoded-token", b + "/%" + fmt.Sprintf("%02X", tok[0]) + tok[1:]}, {"encoded-slash", b + "/" + tok + "%2F"},
 		{"query", b + "/" + tok + "?q=1"}, {"prefixed", "/app" + b + "/" + tok}, {"base-longer", b + "X/" + tok}, {"other-token", b + "/" + otherTok},
-		{"doubled", b + "/" + tok + tok}, {"swapcase-token", b + "/" + swapCase(tok)}, {"root", "/"}, {"dot-segment", b + "/./" + tok}, {"dotdot-segment", b + "/x/../" + tok}}
+		{"doubled", b + "/" + tok + tok}, {"swapcase-token", b + "/" + c15SwapCase(tok)}, {"root", "/"}, {"dot-segment", b + "/./" + tok}, {"dotdot-segment", b + "/x/../" + tok}}
 }
 
 var c15Methods = []string{"GET", "HEAD", "POST", "get", "GETX", "PUT", "OPTIONS"}
 
-func sniVariants(key, ident string) []variant {
-	v := []variant{{"exact", key}, {"swapcase", swapCase(key)}, {"hash", key + "#"}, {"trailing-dot", key + "."}, {"prefixed", "x" + key}, {"empty", ""},
-		{"other", "other.example"}, {"lead-space", " " + key}, {"plus", key + "+"}, {"colon", key + ":"}, {"slash", key + "/"}, {"ident", ident}}
+func c15SNIVariants(key, ident string) []c15Variant {
+	v := []c15Variant{{"exact", key}, {"swapcase", c15SwapCase(key)}, {"hash", key + "#"}, {"trailing-dot", key + "."}, {"prefixed", "x" + key}, {"empty", ""},
+		{"other", "other.example"}, {"lead-space", " " + key}, {"plus", key + "+"}, {"colon", key + ":"}, {"slash", key + "/"}, {"ident", ident},
+		{"dollar-mid", key[:1] + "$" + key[1:]}, {"bang", key + "!"}, {"parens", "(" + key + ")"}}
 	if strings.ContainsAny(key, "kK") {
-		v = append(v, variant{"kelvin", strings.NewReplacer("k", "K", "K", "K").Replace(key)})
+		v = append(v, c15Variant{"kelvin", strings.NewReplacer("k", "K", "K", "K").Replace(key)})
 	}
 	return v
 }
@@ -643,9 +657,9 @@ func c15QueriesFor(r *rand.Rand, chals []c15Chal, ci int, state string, thorough
 		qs = append(qs, q)
 		ds = append(ds, d)
 	}
-	hv, pv := hostVariants(c.Ident), pathVariants(c.Token, other)
+	hv, pv := c15HostVariants(c.Ident), c15PathVariants(c.Token, other)
 	// the challenge's memory / storage key as Host: found by the lookup, refused by the Host check
-	hv = append(hv, variant{"chal-key", certmagic.VerifChallengeKey(c.acme())}, variant{"chal-key-port", certmagic.VerifChallengeKey(c.acme()) + ":80"})
+	hv = append(hv, c15Variant{"chal-key", certmagic.VerifChallengeKey(c.acme())}, c15Variant{"chal-key-port", certmagic.VerifChallengeKey(c.acme()) + ":80"})
 	exactPath := pv[0].val
 	hostExact := c.Ident
 	if idk == "ipv6" {
@@ -674,7 +688,7 @@ func c15QueriesFor(r *rand.Rand, chals []c15Chal, ci int, state string, thorough
 		add(c15Query{Kind: "http", Method: m, Target: p.val, Host: h.val, LoadFault: r.Intn(15) == 0}, map[string]any{"host": h.name, "path": p.name, "method": m})
 	}
 	key := certmagic.VerifChallengeKey(c.acme())
-	sv := sniVariants(key, c.Ident)
+	sv := c15SNIVariants(key, c.Ident)
 	for _, s := range sv {
 		add(c15Query{Kind: "hello", SNI: s.val, Protos: []string{"acme-tls/1"}}, map[string]any{"sni": s.name, "protos": "acme-only"})
 	}
@@ -687,6 +701,18 @@ func c15QueriesFor(r *rand.Rand, chals []c15Chal, ci int, state string, thorough
 		add(c15Query{Kind: "hello", SNI: s.val, Protos: p.p}, map[string]any{"sni": s.name, "protos": p.name})
 	}
 	return qs, ds
+}
+
+// c15Asks are the two validation requests of challenge c as intermediate steps of a history.
+func c15Asks(c c15Chal) []c15Op {
+	host := c.Ident
+	if c.IDType == "ip" && strings.Contains(c.Ident, ":") {
+		host = "[" + c.Ident + "]"
+	}
+	return []c15Op{
+		{Kind: "ask", Q: &c15Query{Kind: "hello", SNI: certmagic.VerifChallengeKey(c.acme()), Protos: []string{"acme-tls/1"}}},
+		{Kind: "ask", Q: &c15Query{Kind: "http", Method: "GET", Target: c15Base + "/" + c.Token, Host: host}},
+	}
 }
 
 // c15Uniq makes an identifier unique to scenario n, keeping its kind and letter case.
@@ -706,7 +732,7 @@ func c15Uniq(id string, n int) string {
 func runC15(tier string, seed int64, outdir string, replay string) error {
 	w := emit.NewWriter(outdir, "C15", tier, seed)
 	defer w.Close()
-	env, err := newC15Env()
+	env, err := c15NewEnv()
 	if err != nil {
 		return err
 	}
@@ -758,7 +784,7 @@ func runC15(tier string, seed int64, outdir string, replay string) error {
 		}
 	}
 	w.Meta.Oracles = append(w.Meta.Oracles, emit.OracleCheck{Name: "acme.Challenge survives the JSON round trip through storage (type, token, key authorization, identifier)", OK: jsonOK})
-	w.Meta.Rule = "distinct (history, request) pairs in which the history presented at least one challenge and the request is a variant of that challenge's validation request (its token path / identifier / key in some spelling)"
+	w.Meta.Rule = "distinct (history, request) pairs in which the history presented at least one challenge and the request is a c15Variant of that challenge's validation request (its token path / identifier / key in some spelling)"
 
 	if replay != "" {
 		rc, err := loadReplay(replay)
@@ -790,6 +816,7 @@ func runC15(tier string, seed int64, outdir string, replay string) error {
 	}
 	P := func(place string, j, c int) c15Op { return c15Op{Kind: "present", Place: place, J: j, C: c} }
 	C := func(place string, j, c int) c15Op { return c15Op{Kind: "clean", Place: place, J: j, C: c} }
+	A := func(c int) c15Op { return c15Op{Kind: "ask", C: c} } // this process answers c's validation requests
 	// ---- corpus: witnesses of the fixed findings and the four states of the property text
 	for _, id := range idents {
 		for _, typ := range []string{"http-01", "tls-alpn-01"} {
@@ -804,6 +831,17 @@ func runC15(tier string, seed int64, outdir string, replay string) error {
 				scen{"remote-issuer2", []c15Chal{c0}, []c15Op{P("remote", 1, 0)}, []string{"remote"}, ""},
 				scen{"remote-testca", []c15Chal{c0}, []c15Op{{Kind: "present", Place: "remote", J: 0, TestCA: true, C: 0}}, []string{"remote"}, "testca-remote"},
 				scen{"local-testca", []c15Chal{c0}, []c15Op{{Kind: "present", Place: "local", J: 0, TestCA: true, C: 0}}, []string{"local"}, ""},
+			)
+			// answering must not change what later requests get: this process answers the validation
+			// of a challenge, then the challenge is cleaned up / replaced by a new one for the same name
+			c1 := c15NewChal(r, typ, id)
+			co := c15NewChal(r, map[string]string{"http-01": "tls-alpn-01", "tls-alpn-01": "http-01"}[typ], id)
+			scens = append(scens,
+				scen{"remote-asked", []c15Chal{c0}, []c15Op{P("remote", 0, 0), A(0)}, []string{"remote"}, ""},
+				scen{"remote-asked-cleaned", []c15Chal{c0}, []c15Op{P("remote", 0, 0), A(0), C("remote", 0, 0)}, []string{"cleaned"}, ""},
+				scen{"remote-asked-renewed", []c15Chal{c0, c1}, []c15Op{P("remote", 0, 0), A(0), C("remote", 0, 0), P("remote", 0, 1)}, []string{"cleaned", "remote"}, ""},
+				scen{"remote-asked-renewed-other-type", []c15Chal{c0, co}, []c15Op{P("remote", 1, 0), A(0), C("remote", 1, 0), P("remote", 0, 1), A(1)}, []string{"cleaned", "remote"}, ""},
+				scen{"local-asked-cleaned", []c15Chal{c0}, []c15Op{P("local", 0, 0), A(0), C("local", 0, 0)}, []string{"cleaned"}, ""},
 			)
 		}
 	}
@@ -856,6 +894,8 @@ func runC15(tier string, seed int64, outdir string, replay string) error {
 				}
 				op := c15Op{Kind: "present", Place: place, J: r.Intn(2), C: k, TestCA: r.Intn(4) == 0 && place != "mem"}
 				ops, placeOf[k], state[k] = append(ops, op), op, place
+			case r.Intn(4) == 0:
+				ops = append(ops, A(k))
 			case r.Intn(8) == 0 && placeOf[k].Place != "mem":
 				ops = append(ops, c15Op{Kind: "tamper", J: placeOf[k].J, Name: chals[k].Ident, V: []string{"delete", "corrupt", "empty"}[r.Intn(3)]})
 				state[k] = "tampered"
@@ -877,11 +917,19 @@ func runC15(tier string, seed int64, outdir string, replay string) error {
 			}
 			s.chals[i].Ident = ren[s.chals[i].Ident]
 		}
-		for i := range s.ops {
-			if s.ops[i].Kind == "tamper" {
-				s.ops[i].Name = ren[s.ops[i].Name]
+		var ops2 []c15Op
+		for _, op := range s.ops {
+			switch {
+			case op.Kind == "tamper":
+				op.Name = ren[op.Name]
+				ops2 = append(ops2, op)
+			case op.Kind == "ask" && op.Q == nil: // symbolic: the validation requests of challenge op.C
+				ops2 = append(ops2, c15Asks(s.chals[op.C])...)
+			default:
+				ops2 = append(ops2, op)
 			}
 		}
+		s.ops = ops2
 		var qs []c15Query
 		var ds []map[string]any
 		for ci := range s.chals {
